@@ -255,6 +255,8 @@ def execute(case):
                 classes.add('command-never-executable+max_retry-1')
         if w.max_cb_slept > 0:
             classes.add('slept-in-callback')
+        if any(op[0] == 'write' for op in case["ops"]):
+            classes.add('workers-write-to-captured-pipes')
     finally:
         h.close()
     seen = set()
@@ -280,7 +282,7 @@ def _strategy():
         hooks=True, exec_fail=True, children=1, kill_cmd=True,
         signal_cmd=True, respawn_false=True, rm=True, max_ops=24,
         set_other=True, job_control=True, config=True, ondemand=True,
-        never_exec=True)
+        never_exec=True, capture=True)
 
     @st.composite
     def case(draw):
